@@ -102,6 +102,9 @@ def same(a, b, tol=1e-7, modpi=False):
         x, y = a[1], b[1]
         if x.shape != y.shape:
             return False
+        # a division by an exact zero gives inf, by a rounded zero something huge: both mean "infinite"
+        x = np.where(np.abs(x) > 1e12, np.inf, x)
+        y = np.where(np.abs(y) > 1e12, np.inf, y)
         fin = np.isfinite(x) & np.isfinite(y)
         if not np.array_equal(np.isfinite(x), np.isfinite(y)):
             return False
